@@ -295,6 +295,11 @@ func (w *World) abortedMerge(ins []*SegH, drops []*roaring.Bitmap) {
 	p := r.path("aborted")
 	ch := make(chan struct{})
 	k := r.ch.Choose(30, "abort.k")
+	if r.ch.Bool("abort.late") {
+		// the stored-field section alone makes dozens of writes: reach the sections
+		// written after it (postings, thesauri, vectors) as well
+		k = r.ch.Choose(600, "abort.latek")
+	}
 	closed := false
 	sr := &statsReporter{cb: func(n int) {
 		if n >= k && !closed {
@@ -356,10 +361,12 @@ func (w *World) roundtripOne(h *SegH) {
 	}
 	p := r.path("rt")
 	if r.ch.Prob(1, 6, "rt.stale") && buf.Len() > 1 {
-		// history: the path holds an earlier, shorter attempt (a truncated image or
-		// unrelated shorter junk); persisting over it must give the same file
-		k := r.ch.Choose(buf.Len()-1, "rt.stalelen")
-		stale := append([]byte(nil), buf.Bytes()[:k]...)
+		// history: the path holds an earlier attempt or an unrelated file, shorter
+		// or longer than the new output (a truncated image, the complete image
+		// followed by more bytes, or junk); persisting over it must give the same file
+		k := r.ch.Choose(2*buf.Len(), "rt.stalelen")
+		stale := make([]byte, k)
+		copy(stale, buf.Bytes())
 		if r.ch.Bool("rt.stalejunk") {
 			for i := range stale {
 				stale[i] = byte(i * 131)
@@ -368,7 +375,11 @@ func (w *World) roundtripOne(h *SegH) {
 		if err := os.WriteFile(p, stale, 0o600); err != nil {
 			r.fail("harness", "roundtrip", "%v", err)
 		}
-		r.count("probe.persist.over-earlier-shorter-attempt")
+		if k >= buf.Len() {
+			r.count("probe.persist.over-longer-file")
+		} else {
+			r.count("probe.persist.over-earlier-shorter-attempt")
+		}
 	}
 	if err := sb.Persist(p); err != nil {
 		r.fail("C04.persist", "Persist", "Persist failed without a fault: %v", err)
